@@ -4532,7 +4532,6 @@ class ParameterizedMetaclass(type):
         if parameter and not isinstance(value,Parameter):
             inherited = owning_class != mcs
             if inherited:
-                inherited_default = parameter.default
                 parameter = copy.copy(parameter)
                 parameter.owner = mcs
                 # Shallow-copy any mutable slot values other than the default
@@ -4542,6 +4541,9 @@ class ParameterizedMetaclass(type):
                     v = getattr(parameter, s)
                     if _is_mutable_container(v) and s not in ("default", "watchers"):
                         setattr(parameter, s, copy.copy(v))
+                # (what the copy starts with: copying itself may refresh a
+                # default that is derived from the file system)
+                copied_default = parameter.default
                 type.__setattr__(mcs,attribute_name,parameter)
                 mcs._clear_params_cache()
             try:
@@ -4550,7 +4552,7 @@ class ParameterizedMetaclass(type):
                 # A rejected value must not leave this class with its own
                 # copy of the inherited Parameter (it would stop following
                 # the class it inherits from)
-                if inherited and parameter.default is inherited_default:
+                if inherited and parameter.default is copied_default:
                     type.__delattr__(mcs, attribute_name)
                     mcs._clear_params_cache()
                 raise
